@@ -131,6 +131,22 @@ def mk_pretext(groups, tf, fr=0):
 
 REPLAY_TEXEL = [None]
 REPLAY_TEXT = {}
+LAST = {}
+
+
+def model_setup(specs, groups, tf, fr, cuts, ends):
+    """first call of every model-map body: per-path reset; in replay mode also
+    looks for a real texel width on whose grid the cuts and shown ends lie"""
+    START()
+    LAST.clear()
+    LAST.update({"tf": tf, "fr": fr, "cuts": cuts, "ends": ends, "specs": specs, "groups": groups})
+    REPLAY_TEXEL[0] = None
+    if PLAIN and cuts is not None:
+        true_len = {sp[0]: sum(sp[2]) for sp in specs}
+        t = grid_realisable(tf, fr, cuts, {k: (v, true_len[k]) for k, v in ends.items()})
+        LAST["grid_t"] = t
+        LAST["model"] = True
+        REPLAY_TEXEL[0] = float(t) if t is not None else None
 
 
 def run_pipeline(inp, prtxt, prefix=None):
@@ -365,3 +381,69 @@ def grid_realisable(tf, fr, cuts, ends):
                 return r
         return None
     return search(0, lo, hi)
+
+
+# ---------------------------------------------------------------- C07 gap oracle
+def _right_end(f):
+    """(name, coordinate) of the fragment's end that faces RIGHT in scaffold order"""
+    return (f.name, f.end if f.strand != -1 else f.start)
+
+
+def _left_end(f):
+    return (f.name, f.start if f.strand != -1 else f.end)
+
+
+def _same_junction(f, g, A, B):
+    """the junction f|g joins the same two contig ends as the input junction A|B
+    (either reading direction)"""
+    rf, lg, rA, lB = _right_end(f), _left_end(g), _right_end(A), _left_end(B)
+    fwd = False
+    rev = False
+    if rf[0] == rA[0] and lg[0] == lB[0]:
+        fwd = AND(rf[1] == rA[1], lg[1] == lB[1])
+    if rf[0] == lB[0] and lg[0] == rA[0]:
+        rev = AND(rf[1] == lB[1], lg[1] == rA[1])
+    return OR(fwd, rev)
+
+
+def input_neighbours(inp):
+    """list of (A, B, gap or None): consecutive contigs of an input scaffold
+    separated by at most one gap row"""
+    res = []
+    for sc in inp.scaffolds:
+        rows = sc.rows
+        for i, r in enumerate(rows):
+            if not is_frag(r):
+                continue
+            if i + 1 < len(rows) and is_frag(rows[i + 1]):
+                res.append((r, rows[i + 1], None))
+            elif i + 2 < len(rows) and is_gap(rows[i + 1]) and is_frag(rows[i + 2]):
+                res.append((r, rows[i + 2], rows[i + 1]))
+    return res
+
+
+def gaps_ok(inp, outs, model):
+    nb = input_neighbours(inp)
+    ok = True
+    for k, asm in outs.items():
+        for sc in asm.scaffolds:
+            rows = sc.rows
+            if not rows:
+                continue
+            if is_gap(rows[0]) or is_gap(rows[-1]):
+                return False
+            for i in range(len(rows) - 1):
+                r, q = rows[i], rows[i + 1]
+                if is_frag(r) and is_frag(q):
+                    # directly adjacent only if the same two contig ends were directly adjacent in the input
+                    ok = AND(ok, OR(*[_same_junction(r, q, A, B) for (A, B, g) in nb if g is None]))
+                elif is_gap(r):
+                    if is_gap(q) or not is_frag(rows[i - 1]):
+                        return False               # two gap rows in a row
+                    if model:
+                        f, g2 = rows[i - 1], q
+                        is_join = AND(r.length == JOIN_GAP[0], r.gap_type == JOIN_GAP[1])
+                        keeps_input = OR(*[AND(_same_junction(f, g2, A, B), r.length == g.length, r.gap_type == g.gap_type)
+                                           for (A, B, g) in nb if g is not None])
+                        ok = AND(ok, OR(is_join, keeps_input))
+    return ok
